@@ -7,7 +7,7 @@ version detection runs under Deadline(protocol_version_timeout), the client conn
 timeout_checked(handshake_timeout); client-ping: every client start* variant spawns the keep-alive task
 iff keepalive is non-zero, the task sleeps the keep-alive period and stops only when the sink is
 closed. WHEN timers fire ('live peers are never timed out', arrival patterns) is about time and is not
-decided. reset-on-frame (continued): handle_timeout starts a new rate period (read_remains_prev <- read_remains, read_remains <- 0) on every path that extends the read timer.
+decided. reset-on-frame (continued): handle_timeout starts a new rate period (read_remains_prev <- read_remains, read_remains <- 0) on every path that extends the read timer. guards (continued): the MQTT 5 server stores Server Keep Alive on the edge `client keep-alive > ack.keepalive` (the two fields compared as they are) and arms the idle timer with ack.keepalive. client-ping (continued): MqttSink::ping hands a PINGREQ to the encoder on every path.
 """
 from facts import *
 from disp import agg_sites
